@@ -80,8 +80,10 @@ impl Prechecker for DefaultPrechecker {
                 None
             }
             PrecheckData::NotCheck { pinned_or_king } => {
-                if !pinned_or_king.has(mv.src()) {
+                if mv.kind() != MoveKind::Enpassant && !pinned_or_king.has(mv.src()) {
                     // The piece is not pinned and is not a king, so the move is definitely legal.
+                    // Enpassant is excluded, as it removes two pieces from the same rank (or a
+                    // piece that blocks a diagonal) and thus may open the king without a pin.
                     Some(true)
                 } else {
                     None
